@@ -36,6 +36,11 @@ pub fn gen_cfg(rng: &mut Rng) -> PCfg {
         lit: rng.below(5) as u8,
         flag: rng.chance(1, 3),
         whole: kind.is_aiger() && rng.chance(1, 3),
+        early: if kind.is_aiger() && rng.chance(1, 3) {
+            1 + rng.below(60_000) as u16
+        } else {
+            0
+        },
     }
 }
 
@@ -293,6 +298,9 @@ pub fn shrink_case(case: &ParseCase) -> Vec<ParseCase> {
         f(&mut c);
         c
     };
+    if case.cfg.early != 0 {
+        out.push(with(&|c| c.cfg.early = 0));
+    }
     // constructor
     if case.ctor.uses_bufreader() || !case.junk.is_empty() {
         out.push(with(&|c| {
@@ -772,6 +780,7 @@ impl Prop for MiriParse {
             lit: rng.below(5) as u8,
             flag: false,
             whole: false,
+            early: 0,
         };
         let d = gen::valid(rng, &cfg, 0);
         let spans: Vec<(usize, usize)> = d.toks.iter().map(|t| (t.start, t.len)).collect();
